@@ -387,21 +387,25 @@ func canonJSON(v any) string {
 const ruleC29 = "ledgers in strict and in audit enforcement mode receive a generated schema (random chart as in C30, with or without transaction templates) at the start of, in the middle of (after schema-less writes on the same controller chain), or never during a history of writes: creates by postings whose accounts lie inside / outside the chart, creates through a template or without one, account metadata writes, reverts, each naming the schema version, an unknown version, or none. Oracle from the chart as written (reference matcher): strict mode rejects a missing or unknown version, a posting outside the chart and a missing template, with every table unchanged; audit mode accepts missing version, outside accounts and missing template; accounts the chart declares receive its default metadata when first created and never afterwards, existing values are never overwritten (account metadata read back after every write); non-trivial = history with >= 1 rejected and >= 1 accepted write under a schema and an account created with defaults; distinct = by schema + history"
 
 type c29Write struct {
-	Kind     string // create, saveAccMeta, revert
-	Dst      []string
-	Src      string
-	Version  string
-	Template string
-	Addr     string
-	Meta     map[string]string
-	AccMeta  map[string]string
-	TxID     uint64
+	Kind      string // create, saveAccMeta, revert
+	Dst       []string
+	Src       string
+	Version   string
+	Template  string
+	OwnScript bool // the request also carries a script of its own besides naming the template
+	Addr      string
+	Meta      map[string]string
+	AccMeta   map[string]string
+	TxID      uint64
 }
 
 func (x c29Write) String() string {
 	switch x.Kind {
 	case "create":
 		s := fmt.Sprintf("create %s->%v", x.Src, x.Dst)
+		if x.OwnScript {
+			s += " +own-script"
+		}
 		if x.Template != "" {
 			s += " template=" + x.Template
 		}
@@ -553,6 +557,12 @@ func TestC29(t *testing.T) {
 				var run ledgercontroller.RunScript
 				if x.Template != "" {
 					run = ledgercontroller.RunScript{Script: ledgercontroller.Script{Template: x.Template, Vars: map[string]string{"dst": x.Dst[0]}}}
+					if rapid.IntRange(0, 3).Draw(rt, "ownScriptBesidesTheTemplate") == 0 {
+						// the request names the template and carries a script of its own (a bulk element or a direct caller can):
+						// naming a template means running the template
+						x.OwnScript = true
+						run.Script.Plain = "vars {\n account $dst\n}\nsend [USD/2 77] (\n source = @world\n destination = $dst\n)\nset_tx_meta(\"own\", \"script\")"
+					}
 				} else {
 					var ps ledger.Postings
 					for _, d := range x.Dst {
@@ -579,6 +589,16 @@ func TestC29(t *testing.T) {
 								break
 							}
 						}
+					}
+				}
+				if err == nil && x.OwnScript {
+					for _, p := range res.Transaction.Postings {
+						if p.Amount.Cmp(big.NewInt(77)) == 0 {
+							rt.Fatalf("VIOLATION[C29]: %s names template %s but the script carried by the request was executed instead (postings %s, recorded template %q)\nhistory:\n  %s", x, x.Template, postingsStr(res.Transaction.Postings), res.Transaction.Template, strings.Join(hist, "\n  "))
+						}
+					}
+					if _, own := res.Transaction.Metadata["own"]; own {
+						rt.Fatalf("VIOLATION[C29]: %s names template %s but carries the metadata set by the request's own script", x, x.Template)
 					}
 				}
 				if err == nil {
